@@ -1,7 +1,10 @@
 package c05
 
 import (
+	"fmt"
+	"io"
 	"net"
+	"os"
 	"runtime"
 	"strconv"
 	"strings"
@@ -129,11 +132,12 @@ type world struct {
 	tcpNew chan *hconn
 	base   census // session goroutines leaked by EARLIER (broken) cases: not ours
 
-	gateCh  chan struct{} // non-nil and open: OnSessionCreate of accepted connections waits here
-	gateMu  sync.Mutex
-	clients []net.Conn // client ends of the TCP connections of this case
-	entered int32      // OnSessionCreate calls that arrived at the gate
-	nextTok int64
+	gateCh   chan struct{} // non-nil and open: OnSessionCreate of accepted connections waits here
+	gateMu   sync.Mutex
+	clients  []io.Closer // client ends of the socket connections of this case
+	entered  int32       // OnSessionCreate calls that arrived at the gate
+	panicked int32       // a call into the implementation panicked on a harness goroutine
+	nextTok  int64
 
 	asyncs   []*async // everything started on its own goroutine because it may park in a push
 	ownerJob *async   // a PushMsg of the owning service that has not returned yet
@@ -149,10 +153,22 @@ func (w *world) spawn(f func()) *async {
 	a := &async{}
 	w.asyncs = append(w.asyncs, a)
 	go func() {
-		f()
-		atomic.StoreInt32(&a.done, 1)
+		defer atomic.StoreInt32(&a.done, 1)
+		w.guard(f)
 	}()
 	return a
+}
+
+// guard runs code of the implementation that the harness calls on one of its own goroutines
+// (kick, Close, heartbeat tick, PushMsg, front steps): a panic in there is an observation -
+// the case is emitted with hang = true, which the model cannot produce - not a harness crash.
+func (w *world) guard(f func()) {
+	defer func() {
+		if e := recover(); e != nil {
+			atomic.StoreInt32(&w.panicked, 1)
+		}
+	}()
+	f()
 }
 
 func (w *world) pendingAsync() int {
@@ -166,7 +182,12 @@ func (w *world) pendingAsync() int {
 }
 
 // ---- recording ISessionsHandler ----
-type recHandler struct{ w *world }
+// The session-level close callbacks are registered with, kept by and fired from the REAL
+// impls.HandlerComponent (AddOnSessionClose / OnSessionRemove).
+type recHandler struct {
+	w  *world
+	hc *impls.HandlerComponent
+}
 
 func tokOf(fs *cs.FrontSession) int64 {
 	if p, ok := fs.Session.(*sessProxy); ok {
@@ -192,10 +213,15 @@ func (h *recHandler) Process(fs *cs.FrontSession, m *msgs.ClientMsg) {
 }
 func (h *recHandler) OnSessionAdd(fs *cs.FrontSession) {
 	h.w.hlog = append(h.w.hlog, hx.C("HAdd", tokOf(fs), int64(fs.GetNetId())))
+	h.hc.OnSessionAdd(fs)
+	h.hc.AddOnSessionClose(fs.GetNetId(), func(ns *service.NodeService, fs2 *cs.FrontSession) {
+		h.w.hlog = append(h.w.hlog, hx.C("HOnClose", tokOf(fs2), int64(fs2.GetNetId())))
+	})
 }
 func (h *recHandler) OnSessionRemove(fs *cs.FrontSession) {
 	gone := h.w.cs.GetSession(fs.GetNetId()) == nil
 	h.w.hlog = append(h.w.hlog, hx.C("HRemove", tokOf(fs), int64(fs.GetNetId()), gone))
+	h.hc.OnSessionRemove(fs)
 }
 
 func newWorld() *world {
@@ -205,7 +231,9 @@ func newWorld() *world {
 	common.VerifSetNowMs(w.now)
 	w.sch = sche.NewSche()
 	w.cs = impls.NewClientSessions("front-c05")
-	w.cs.SetHandler(&recHandler{w})
+	hc := impls.NewHandler(nil)
+	hc.Init((*service.NodeService)(nil)) // OnSessionRemove hands GetNodeService() to the callback
+	w.cs.SetHandler(&recHandler{w, hc})
 	w.cs.SetOnCloseHandler(func(ns *service.NodeService, fs *cs.FrontSession) {
 		w.hlog = append(w.hlog, hx.C("HCloseCb", tokOf(fs), int64(fs.GetNetId())))
 	})
@@ -335,6 +363,9 @@ func (w *world) stable() bool {
 }
 
 func (w *world) waitFor(cond func() bool) {
+	if atomic.LoadInt32(&w.panicked) != 0 {
+		w.hang = true
+	}
 	if w.hang {
 		return // the case is already lost: do not pay for another watchdog
 	}
@@ -345,6 +376,10 @@ func (w *world) waitFor(cond func() bool) {
 		}
 		if time.Now().After(deadline) {
 			w.hang = true
+			if os.Getenv("C05_DEBUG") != "" {
+				buf := make([]byte, 4096)
+				fmt.Fprintf(os.Stderr, "c05: watchdog expired at\n%s\n", buf[:runtime.Stack(buf, false)])
+			}
 			return
 		}
 		if i < 50 {
@@ -458,6 +493,17 @@ func (w *world) flood(k *hconn, n int64) {
 	})
 }
 
+// doKick: a user-supplied kick handler ("tell the client first, then kick") reduced to the kick
+type doKick struct{}
+
+func (doKick) HandleKick(ns *service.NodeService, sessions *impls.ClientSessions, netId uint32) {
+	sessions.DoKick(netId)
+}
+
+func pushOf(ids ...uint32) *msgs.PushMsg {
+	return &msgs.PushMsg{Ids: ids, Route: "push.r", Data: []byte("p")}
+}
+
 func (w *world) frontOne() bool {
 	select {
 	case t := <-w.sch.GetChanTask():
@@ -484,11 +530,24 @@ func (w *world) simple(o hx.T) {
 		}
 	case "OKick":
 		if id, ok := w.idOf(o.Int(0)); ok && !w.ownerJob.busy() {
-			w.cs.Kick(id)
+			// connections with an even token are kicked through a customised kick handler
+			// (ClientSessions.SetKickHandler -> HandleKick -> DoKick), the others by default
+			if o.Int(0)%2 == 0 {
+				w.cs.SetKickHandler(doKick{})
+			} else {
+				w.cs.SetKickHandler(nil)
+			}
+			w.guard(func() { w.cs.Kick(id) })
 		}
 	case "OCloseExt":
 		if k, ok := w.conns[o.Int(0)]; ok {
-			k.sess.Close()
+			w.guard(k.sess.Close)
+		}
+	case "OCloseErr":
+		if k, ok := w.conns[o.Int(0)]; ok && !k.tcp {
+			k.sc.mu.Lock()
+			k.sc.closeErr = true
+			k.sc.mu.Unlock()
 		}
 	case "OHeartbeat":
 		if k, ok := w.conns[o.Int(0)]; ok {
@@ -536,7 +595,7 @@ func (w *world) exec(o hx.T) {
 		}
 		if !w.ownerJob.busy() {
 			// the owning service's goroutine: it may park inside session.Push
-			m := &msgs.PushMsg{Ids: ids, Route: "push.r", Data: []byte("p")}
+			m := pushOf(ids...)
 			w.ownerJob = w.spawn(func() { w.cs.PushMsg(m) })
 		}
 	case "OFront":
@@ -561,7 +620,10 @@ func (w *world) exec(o hx.T) {
 		w.realTicker(o.Int(0))
 		return
 	case "OTcp":
-		w.tcp(o.Int(0), o.Int(1))
+		w.netScenario(0, o.Int(0), o.Int(1))
+		return
+	case "ONet":
+		w.netScenario(int(o.Int(0)), o.Int(1), o.Int(2))
 		return
 	case "ORace", "ORaceRel":
 		subs := hx.Terms(o.Args[len(o.Args)-1])
@@ -723,8 +785,13 @@ func (w *world) teardown() (clean bool) {
 // hung: a watchdog expired or the case could not be torn down (time was lost on it).
 func Exec(ops []hx.T) (obs any, nontrivial bool, hung bool) {
 	for _, o := range ops {
+		if o.Name == "ONet" {
+			if t := int(o.Int(0)); t >= 0 && t <= 3 {
+				startNet(t) // the acceptors' own goroutines live for the whole process
+			}
+		}
 		if o.Name == "OTcp" || o.Name == "OBurst" {
-			startTcp() // the acceptor's own goroutines live for the whole process
+			startNet(0) // the acceptor's own goroutines live for the whole process
 		}
 	}
 	base := runtime.NumGoroutine()
@@ -737,7 +804,7 @@ func Exec(ops []hx.T) (obs any, nontrivial bool, hung bool) {
 	}
 	fins, alive, blocked := w.observe()
 	hlog := append([]any{}, w.hlog...)
-	hang := w.hang
+	hang := w.hang || atomic.LoadInt32(&w.panicked) != 0
 	w.hang = false
 	clean := w.teardown()
 	leak := !clean
